@@ -274,10 +274,10 @@ func UnknownLabel(t *rapid.T, o ValOpts) rc.Val {
 
 // HeaderOpts tunes header generation.
 type HeaderOpts struct {
-	Val        ValOpts
-	MaxEntries int  // unknown-label entries
-	Alg        *int64 // alg value to place in protected (nil: none)
-	AlgSpell   bool   // spell alg value as cose.Algorithm sometimes
+	Val          ValOpts
+	MaxEntries   int    // unknown-label entries
+	Alg          *int64 // alg value to place in protected (nil: none)
+	AlgSpell     bool   // spell alg value as cose.Algorithm sometimes
 	NoRegistered bool
 }
 
